@@ -124,4 +124,42 @@ theorem wlogs_view (r : Nat) (es : List Event) : wlogs (view r es) = writesOf es
       · simp [view, proj, h, wlogs, wlog, writesOf] at ih ⊢; exact ih
       · simp [view, proj, h, writesOf] at ih ⊢; exact ih
 
+theorem rstep_nw_le (cfg : Cfg) (x : Reader) (e : REv) : x.nw ≤ (rstep cfg x e).nw := by
+  cases e with
+  | ctl c => simp [rstep, rctl_nw]
+  | write m p =>
+    simp only [rstep, rwrite]
+    cases hs : cfg.ssrcOf m p.pt with
+    | none => simp
+    | some s => cases ho : outcome cfg x m <;> simp
+
+theorem accOf_wid (cfg : Cfg) (x : Reader) (e : REv) : ∀ d ∈ accOf cfg x e, d.wid = x.nw := by
+  intro d hd
+  cases e with
+  | ctl c => simp [accOf] at hd
+  | write m p =>
+    simp only [accOf] at hd
+    cases hs : cfg.ssrcOf m p.pt with
+    | none => simp [hs] at hd
+    | some s =>
+      cases ho : outcome cfg x m <;> simp [hs, ho] at hd
+      rw [hd]
+
+/-- pushes accepted along `evs` from state `x` are writes number `x.nw` or later -/
+theorem accLog_wid_ge (cfg : Cfg) (evs : List REv) : ∀ x : Reader, ∀ d ∈ accLog cfg x evs, x.nw ≤ d.wid := by
+  induction evs with
+  | nil => intro x d hd; cases hd
+  | cons e es ih =>
+    intro x d hd
+    simp only [accLog, List.mem_append] at hd
+    rcases hd with hd | hd
+    · rw [accOf_wid cfg x e d hd]; exact Nat.le_refl _
+    · exact Nat.le_trans (rstep_nw_le cfg x e) (ih _ d hd)
+
+theorem rwrite_nw (cfg : Cfg) (x : Reader) (m : Nat) (p : Pkt) : (rwrite cfg x m p).nw = x.nw + 1 := by
+  simp only [rwrite]
+  cases hs : cfg.ssrcOf m p.pt with
+  | none => rfl
+  | some s => cases ho : outcome cfg x m <;> rfl
+
 end Rtsp.Pipe
